@@ -94,6 +94,20 @@ def cases(tier, rng, schema, feats):
         for le in (0, 1, 2, 5, 6, 7, 255, 256, 257, 65535):
             add("le", bytes([0, ins, 0, 0, 0]) + le.to_bytes(2, "big"))          # case 2E
             add("le", bytes([0, ins, 0, 0, 0, 0, 2, 0xAA, 0xBB]) + le.to_bytes(2, "big"))   # case 4E
+    # the commands an NFC / CCID reader really sends to a FIDO token besides the three U2F instructions: SELECT by name with the FIDO
+    # AID (full, truncated, extended by one byte, the RID alone), the Yubico OTP / PIV / OpenPGP / NDEF AIDs, GET RESPONSE, GET DATA,
+    # NFCCTAP_MSG (0x10) and the vendor instructions, with every P1 / P2 a reader uses and every Lc / Le encoding: none is a U2F
+    # instruction, whatever its data
+    fido = bytes.fromhex("a0000006472f0001")
+    aids = [fido, fido[:7], fido[:5], fido + b"\x00", fido[:-1] + b"\x02", bytes.fromhex("a0000005272001"), bytes.fromhex("a000000308"),
+            bytes.fromhex("d27600012401"), bytes.fromhex("d2760000850101"), b"U2F_V2", b""]
+    for ins in (0xA4, 0xC0, 0xCA, 0xCB, 0xB0, 0x10, 0x11, 0x12, 0x40, 0xC1, 0xC3, 0x01, 0x02, 0x03):
+        for p1 in (0x00, 0x04, 0x03, 0x80):
+            for p2 in (0x00, 0x0C):
+                for aid in aids:
+                    for enc in ("short", "shortle", "ext", "extle"):
+                        for cla in (0x00, 0x80):
+                            add("iso", apdu(cla, ins, p1, p2, aid, enc))
     # malformed framings
     for k in range(0, 12):
         add("frame", rng.bytes(k))
